@@ -1,6 +1,11 @@
-//! Export directory (C08): `exports <k> dump` and `export <k> <query> <args…>` on the current image.
+//! Export directory (C08): `exports <k> dump`, `exports <k> by` and `export <k> <query> <args…>` on
+//! the current image.
 //! Everything goes through `with_any!` (format specific types and the `Wrap` API under the same
 //! method names) except `proc`, which the wrappers do not offer (`with_specific!`).
+//! `exports <k> by`: `image()` / `dll_name()` / `ordinal_base()` called on the `By` (format specific:
+//! through `Deref<Target = Exports>`; `wf` / `wv`: the wrapper's own `By::{image, dll_name, ordinal_base}`).
+//! `export <k> symfwd <index|ordinal|hint|name> <arg>`: the lookup, then `Export::symbol()` and
+//! `Export::forward()` of its answer.
 use crate::util::*;
 use crate::State;
 use pelite::pe64::imports::Import;
@@ -71,6 +76,26 @@ fn dump(st: &State, k: &str) -> String {
 	})
 }
 
+/// `exports <k> by`: the directory header, the library name and the ordinal base as the `By` hands them out
+fn by_head(st: &State, k: &str) -> String {
+	with_any!(st, k, g, p => {
+		let by = match p.exports().and_then(|e| e.by()) { Ok(by) => by, Err(e) => return er(e) };
+		let im = by.image();
+		let mis = if (im as *const _ as usize) % 4 != 0 { "!MISALIGNED" } else { "" };
+		format!("ok img={}{} dll={} base={}", g.rf(im as *const _ as *const u8, 40), mis, cstr(g, by.dll_name()), by.ordinal_base())
+	})
+}
+
+/// `sym=some:<rva>|none fwd=some:<hex>@off:len|none`: `Export::symbol()` and `Export::forward()`
+fn symfwd(g: &Guarded, r: pelite::Result<Export>) -> String {
+	match r {
+		Ok(e) => format!("ok sym={} fwd={}",
+			match e.symbol() { Some(rva) => format!("some:{}", rva), None => "none".to_string() },
+			match e.forward() { Some(s) => format!("some:{}", cstr(g, Ok(s))), None => "none".to_string() }),
+		Err(e) => er(e),
+	}
+}
+
 fn query(st: &State, a: &[&str]) -> String {
 	let k = a[0];
 	let q = a[1];
@@ -136,6 +161,10 @@ fn query(st: &State, a: &[&str]) -> String {
 			("import", 3) if args[0] == "byname" => { let n = with_nul(&unhex(args[2]));
 				match CStr::from_bytes(&n) { Some(c) => rexp(g, by.import(Import::ByName { hint: num(args[1]) as usize, name: c })), None => "bad-op".to_string() } },
 			("import", 2) if args[0] == "byordinal" => rexp(g, by.import(Import::ByOrdinal { ord: num(args[1]) as u16 })),
+			("symfwd", 2) if args[0] == "ordinal" => symfwd(g, by.ordinal(num(args[1]) as u16)),
+			("symfwd", 2) if args[0] == "index" => symfwd(g, by.index(num(args[1]) as usize)),
+			("symfwd", 2) if args[0] == "hint" => symfwd(g, by.hint(num(args[1]) as usize)),
+			("symfwd", 2) if args[0] == "name" => symfwd(g, by.name(&unhex(args[1])[..])),
 			("name_of_hint", 1) => match by.name_of_hint(num(args[0]) as usize) { Ok(s) => format!("ok {}", cstr(g, Ok(s))), Err(e) => er(e) },
 			("name_lookup", 1) => match by.name_lookup(num(args[0]) as usize) {
 				Ok(Import::ByName { hint, name }) => format!("ok ByName({},{})", hint, cstr(g, Ok(name))),
@@ -150,6 +179,7 @@ pub fn dispatch(st: &mut State, fam: &str, rest: &str) -> Option<String> {
 	let a: Vec<&str> = rest.split(' ').collect();
 	Some(match fam {
 		"exports" if a.len() == 2 && a[1] == "dump" => dump(st, a[0]),
+		"exports" if a.len() == 2 && a[1] == "by" => by_head(st, a[0]),
 		"export" if a.len() >= 3 => query(st, &a),
 		"exports" | "export" => "bad-op".to_string(),
 		_ => return None,
